@@ -28,12 +28,12 @@ def specs():
 
 def units(bins, tier, seed):
     b = bins["c03_response"]
-    nproc, n = (12, 250) if tier == "quick" else (14, 6000)
+    nproc, n = (14, 1500) if tier == "quick" else (14, 6000)
     return [Unit("c03_response.rc%d" % i, [b], env={"RC_PARAMS": rc_params(seed * 1000 + i, n, 100), "VERIF_REGRESS": 1 if i == 0 else 0}, group="random", timeout=7200) for i in range(nproc)]
 
 
 def run(tier, seed):
-    return verif.standard(ID, tier, seed, specs(), units, RULE, level=LEVEL, floor={"random": 12 * 250},
+    return verif.standard(ID, tier, seed, specs(), units, RULE, level=LEVEL, floor={"random": 12000},
                           assumptions=["harness de-framers (harness/common/vclient.h) and zlib inflate are correct",
                                        "all library socket writes go through ::writev (booster stream_socket.cpp)"])
 
